@@ -308,11 +308,12 @@ def build_pair_queries(db, prog, name, propid='C01', chunk=40):
     return out
 
 
-def build_pair_query(db, prog, name, pairing=None, extra_cuts=None, propid='C01', only=None):
+def build_pair_query(db, prog, name, pairing=None, extra_cuts=None, propid='C01', only=None, hooks=None):
     """one CBMC query: every cut point (or the cut points with index in `only`) of the routine pair"""
+    hooks = hooks or {}
     fx = db['funcs'][name]
     T = db['types']
-    rname = ref_name_for(name, prog)
+    rname = hooks.get('ref') or ref_name_for(name, prog)
     if rname is None:
         raise Unsupported('no reference unit for ' + name)
     fr = prog.translate(rname)
@@ -325,19 +326,25 @@ def build_pair_query(db, prog, name, pairing=None, extra_cuts=None, propid='C01'
     callees_x = []
     while todo:
         c = todo.pop(0)
-        if c in INLINE_PURE and c in db['funcs']:
+        if (c in INLINE_PURE or c in hooks.get('inline_x', ())) and c in db['funcs']:
             if c not in inline_x:
                 inline_x.append(c)
                 todo += sorted(db['funcs'][c].calls)
         elif c not in callees_x:
             callees_x.append(c)
     for c in sorted(callees_x):
+        if c in hooks.get('custom_stubs_x', {}):
+            stubs.append(hooks['custom_stubs_x'][c])
+            continue
         if c not in db['funcs']:
             raise Unsupported('C++ callee %s not rendered' % c)
         txt, shp = pairing.stub_cxx(c)
         stubs.append(txt)
         shapes_x[shp[0]] = (c, shp[1])
     for c in sorted(fr.calls):
+        if c in hooks.get('custom_stubs_r', {}):
+            stubs.append(hooks['custom_stubs_r'][c])
+            continue
         if c.startswith('ref_'):
             raise Unsupported('reference routine accesses the event record (%s): angular-correlation block, not covered yet' % c)
         txt, shp = pairing.stub_ref(c)
@@ -353,6 +360,24 @@ def build_pair_query(db, prog, name, pairing=None, extra_cuts=None, propid='C01'
         br0 = drop_unreachable_tail(truncate_at(br0, TRUNCATE[name]), TRUNCATE[name])
     bx = segments.lower_loops(copy.deepcopy(bx0)) if segments.has_structured_loop(bx0) else bx0
     br = segments.lower_loops(copy.deepcopy(br0)) if segments.has_structured_loop(br0) else br0
+    if hooks.get('cutmap'):
+        # a structured loop on one side against a label+goto loop on the other: the loop head IS that label
+        # (a wrong map cannot make a false proof, only a failed one)
+        cm_ = hooks['cutmap']
+        bx = copy.deepcopy(bx)
+
+        def ren(s):
+            if s.kind == 'label' and s.name in cm_:
+                s.name = cm_[s.name]
+            if s.kind == 'goto' and s.label in cm_:
+                s.label = cm_[s.label]
+            for y in getattr(s, 'items', []) or []:
+                ren(y)
+            for a in ('then', 'els', 'stmt', 'body', 'init'):
+                y = getattr(s, a, None)
+                if isinstance(y, S):
+                    ren(y)
+        ren(bx)
     lx = [n for k, n in segments.order_positions(bx) if k == 'label']
     lr = [n for k, n in segments.order_positions(br) if k == 'label']
     common = [l for l in lx if l in set(lr)]
@@ -365,7 +390,7 @@ def build_pair_query(db, prog, name, pairing=None, extra_cuts=None, propid='C01'
     lits = set()
     collect_literals(fx, lits)
     collect_literals(fr, lits)
-    for c in INLINE_PURE:
+    for c in list(INLINE_PURE) + list(inline_x):
         if c in db['funcs']:
             collect_literals(db['funcs'][c], lits)
     for nm in getattr(fr, 'commons', {}):
@@ -390,22 +415,28 @@ def build_pair_query(db, prog, name, pairing=None, extra_cuts=None, propid='C01'
     assert idsx == idsr
     # ---- related variables -------------------------------------------------------------------------------
     vx = {}
+    rnm = hooks.get('rename_x', {})
+    _norm = globals()['norm']
+
+    def normx(n_):   # C++ -> reference variable name map of this pair
+        k_ = _norm(n_)
+        return rnm.get(k_, k_)
     for (pre, nm, t, isref) in fx.params:
-        vx[norm(nm)] = ('param', nm, t, isref)
+        vx[normx(nm)] = ('param', nm, t, isref)
     aliases = {}
     for (t, nm, did) in fx.locals:
         ab = alias_base(nm)
         if ab is not None:
             # a second C++ variable of the same source name (block-scoped loop counters): related to the same reference
             # variable; compared only when it changed in the segment (the other one is dead there)
-            aliases.setdefault(norm(ab), []).append((nm, t))
+            aliases.setdefault(normx(ab), []).append((nm, t))
             continue
-        vx.setdefault(norm(nm), ('local', nm, t, False))
+        vx.setdefault(normx(nm), ('local', nm, t, False))
     vr = {}
     for (pre, nm, t, isref) in fr.params:
-        vr[norm(nm)] = ('param', nm, t, isref)
+        vr[_norm(nm)] = ('param', nm, t, isref)
     for (t, nm, did) in fr.locals:
-        vr.setdefault(norm(nm), ('local', nm, t, False))
+        vr.setdefault(_norm(nm), ('local', nm, t, False))
     H = []
     setup_entry = []
     setup_cut = []
@@ -413,12 +444,16 @@ def build_pair_query(db, prog, name, pairing=None, extra_cuts=None, propid='C01'
     unrelated = []
     G = []
     for key in sorted(set(vx) | set(vr)):
+        if key in hooks.get('skip_vars', ()):
+            continue
         a = vx.get(key)
         b = vr.get(key)
         if a and b:
             ta = bx2c.strip_cv(a[2].replace('&', '')).replace('bxdecay0::', '')
             tb = bx2c.strip_cv(b[2].replace('&', ''))
             ca = {'double': 'double', 'int': 'int', 'bool': 'int', 'const int': 'int'}.get(ta)
+            if ca is None and (ta in T.enums or ta.replace('::', '__') in T.enums):
+                ca = 'int'
             cb = {'double': 'double', 'int': 'int', 'bool': 'int'}.get(tb)
             if a[3] or b[3]:
                 # by-reference parameters: each side points at its own harness variable; related like locals
@@ -449,6 +484,10 @@ def build_pair_query(db, prog, name, pairing=None, extra_cuts=None, propid='C01'
             if a[0] == 'param' or b[0] == 'param':
                 setup_entry.append(both)
             setup_cut.append(both)
+            if a[0] == 'param' and b[0] == 'param' and not cuts:
+                # by-value parameters of a loop-free pair are not observable after the call (the reference's fermi clamps
+                # its own copy of E)
+                continue
             if ca == 'double' and cb == 'double':
                 checks.append((key, 'bx_same(x_%s, r_%s)' % (a[1], b[1])))
             else:
@@ -486,6 +525,16 @@ def build_pair_query(db, prog, name, pairing=None, extra_cuts=None, propid='C01'
             st = 'r_%s = %s;' % (nm, lit(vals[0]))
         setup_entry.append('  ' + st)
         setup_cut.append('  ' + st)
+    for ln in hooks.get('extra_setup', []):
+        setup_entry.append(ln)
+        setup_cut.append(ln)
+    checks += list(hooks.get('extra_checks', []))
+    G += list(hooks.get('extra_globals', []))
+    # state commons of the reference side that no hook declared
+    for g_, (t_, dims_, blk_, pos_) in sorted(getattr(fr, 'state_commons', {}).items()):
+        decl_ = 'static %s %s%s;' % ({'d': 'double', 'i': 'int'}[t_], g_, '[%s]' % dims_[0] if dims_ else '')
+        if decl_ not in G and not any(g_ in x for x in G):
+            G.append(decl_)
     # prng/event parameters of the C++ side
     for (pre, nm, t, isref) in fx.params:
         b = bx2c.strip_cv(t.replace('&', '')).replace('bxdecay0::', '')
@@ -495,15 +544,18 @@ def build_pair_query(db, prog, name, pairing=None, extra_cuts=None, propid='C01'
         if b == 'event':
             setup_entry.append('  x_%s = &ev_x;' % nm)
             setup_cut.append('  x_%s = &ev_x;' % nm)
+    if fx.ret != 'void' and fr.ret != 'void':
+        checks.append(('result', 'bx_same((double)x_bx_ret, (double)r_bx_ret)'))
     th, _ = extract.types_h(db)
     parts = [PRELUDE % {'types': th, 'dargs': ', '.join(['double'] * NA), 'NE': NE, 'ND': ND, 'NC': NC, 'NA': NA}]
     parts.append('double nondet_double(void); int nondet_int(void);')
+    parts.append(extract.protos_h(db))
+    parts += G
     parts += stubs
     for c in reversed(inline_x):
         parts.append(bx2c.Printer(T, bx2c.Opts(uf=True, litmap=litmap)).function(db['funcs'][c]))
     parts.append(dx)
     parts.append(dr)
-    parts += G
     parts.append(sx)
     parts.append(sr)
     H.append('void harness(void)')
